@@ -11,13 +11,17 @@ import polgen
 
 RUNNER = "engine"
 
+import datetime as _dt0
+
+DT_NOW = _dt0.datetime(2025, 1, 1, tzinfo=_dt0.timezone.utc)
+
 OBLS = [None, [], [{"type": "require_mfa"}], [{"type": "require_level", "attrs": {"min": 2}}],
         [{"type": "require_mfa", "on": "deny"}], [{"type": "unknown_kind"}],
         [{"type": "require_mfa"}, {"type": "require_reauth", "attrs": {"max_age": 60}}],
         [{"type": "http_challenge", "attrs": {"scheme": "Basic"}}],
         [{"type": {"vendor": "x", "name": "audit"}}, {"type": "require_mfa"}], [{"type": ["require_mfa"]}, {"type": "require_level", "attrs": {"min": 2}}],
         [{"type": "http_challenge", "attrs": {"scheme": 1}}], [{"type": "require_consent", "attrs": {"key": ""}}]]
-CTXS = [{}, {"mfa": True}, {"mfa": True, "auth_level": 3, "reauth_age_seconds": 5}, {"auth_level": "high"},
+CTXS = [{"now": DT_NOW, "mfa": True}, {"now": "2025-01-01T00:00:00Z"}, {"now": 1735689600, "n": 5}, {}, {"mfa": True}, {"mfa": True, "auth_level": 3, "reauth_age_seconds": 5}, {"auth_level": "high"},
         {"mfa": 0, "n": 5}, {"mfa": True, "n": 5, "reauth_age_seconds": 500}]
 REL_CONDS = [{"rel": "viewer"}, {"rel": {"relation": "owner", "resource": {"attr": "resource.attrs.parent"}}},
              {"and": [{"rel": "viewer"}, {"rel": "viewer"}]}, {"or": [{"rel": "editor"}, {"rel": "viewer"}]},
@@ -34,7 +38,9 @@ def rich_rule(rng, i):
             "actions": rng.choice([["read"], ["*"], ["write"], ["read", "write"]]),
             "resource": rng.choice([{"type": "doc"}, {"type": "*"}, {"type": ["doc", "img"]}, {"type": "doc", "id": "1"},
                                     {"type": "doc", "id": 1}, {"type": "doc", "attrs": {"k": 1}}, {"type": "img"},
-                                    {"type": "doc", "attrs": {"k": [1, 2]}}, {"type": "doc", "attrs": {"k": "1"}}])}
+                                    {"type": "doc", "attrs": {"k": [1, 2]}}, {"type": "doc", "attrs": {"k": "1"}},
+                                    {"type": "doc", "attrs": {"locked_by": None}}, {"type": "doc", "attrs": {"k": [None, 1]}},
+                                    {"type": "doc", "attrs": {"owner": "None"}}])}
     r = rng.random()
     if r < 0.25:
         rule["condition"] = rng.choice([{"==": [{"attr": "context.n"}, 5]}, {"<": [{"attr": "context.n"}, 3]},
